@@ -895,7 +895,10 @@ type Other implements B {
 }
 ";
 
-/// Accepted by `Schema::parse` although an edge declares the same parameter twice (N-5).
+/// An edge declares the same parameter twice (N-5 / F-C10-5).  `Schema::parse` used to accept this text and
+/// every query through such an edge panicked in `make_edge_parameters`; since the repair it is rejected
+/// with `DuplicateFieldParameterDefinition`, so no query can be compiled against it: the requests of this
+/// schema stay as regression cases and are answered `(schema-rejected DuplicateFieldParameterDefinition)`.
 const C10DUP_BODY: &str = "
 schema { query: Root }
 type Root {
@@ -923,13 +926,42 @@ fn schema_sdl(id: &str) -> Option<&'static str> {
 thread_local! {
     static SCHEMAS: std::cell::RefCell<BTreeMap<String, &'static Schema>> = const { std::cell::RefCell::new(BTreeMap::new()) };
 }
+/// The variant with which `Schema::parse` rejects the schema text `id` because a field declares a parameter
+/// twice (the only rejection the harness schemas may meet); any other rejection is a harness bug.
+fn schema_rejection(id: &str) -> Option<&'static str> {
+    use trustfall_core::schema::error::InvalidSchemaError as E;
+    fn dup_param(e: &E) -> bool {
+        match e {
+            E::DuplicateFieldParameterDefinition(..) => true,
+            E::MultipleErrors(v) => v.0.iter().any(dup_param),
+            _ => false,
+        }
+    }
+    thread_local! {
+        static REJECTED: std::cell::RefCell<BTreeMap<String, Option<&'static str>>> = const { std::cell::RefCell::new(BTreeMap::new()) };
+    }
+    if let Some(r) = REJECTED.with(|m| m.borrow().get(id).copied()) {
+        return r;
+    }
+    let r = match Schema::parse(schema_sdl(id)?) {
+        Ok(_) => None,
+        Err(e) if dup_param(&e) => Some("DuplicateFieldParameterDefinition"),
+        Err(e) => panic!("harness schema {id} must be valid or declare a parameter twice: {e}"),
+    };
+    REJECTED.with(|m| m.borrow_mut().insert(id.to_string(), r));
+    r
+}
 fn schema(id: &str) -> Option<&'static Schema> {
     SCHEMAS.with(|m| {
         if let Some(s) = m.borrow().get(id) {
             return Some(*s);
         }
         let sdl = schema_sdl(id)?;
-        let s: &'static Schema = Box::leak(Box::new(Schema::parse(sdl).expect("harness schema must be valid")));
+        let s: &'static Schema = match Schema::parse(sdl) {
+            Ok(s) => Box::leak(Box::new(s)),
+            Err(_) if schema_rejection(id).is_some() => return None,
+            Err(e) => panic!("harness schema must be valid: {e}"),
+        };
         m.borrow_mut().insert(id.to_string(), s);
         Some(s)
     })
@@ -2042,7 +2074,7 @@ impl Prop for C10 {
         "C10"
     }
     fn rule(&self) -> &'static str {
-        "Streams, over three schemas (the repo's `numbers`; `c10a`: Boolean/ID/Float properties, 29- and 30-level list properties, list/string/bool parameters with defaults and nullability, a three-level interface hierarchy with narrowed edge types, a custom scalar; `c10dup`: an edge that declares a parameter twice, accepted by Schema::parse): (valid) type-directed queries (root fields with parameters, properties incl. __typename, every edge, aliases, `... on` coercions, @optional/@recurse/@fold/@fold @transform(count) with @output/@filter/@tag, filters with variables and with previously defined tags incl. fold-count tags; one document in six in a loose mode with names from small pools - output/tag clashes, variables shared between filters - fold-local tags kept visible and rejected directive mixes); (mut) one to three random mutations of such a query out of 34 kinds: drop/duplicate/transpose/insert a directive, wrong argument kinds, missing/extra/duplicated arguments, @transform chains, directives on the root field / operation / fragment spreads / inline fragments, 1/2/3 named operations, fragments defined/used/unused, variable definitions, mutation/subscription, aliases everywhere, numeric edge cases of `depth`, filter operand shapes, renamed fields incl. __typename, edge arguments of every value kind, coercion under a property, output-name clashes, structures no text can produce (empty operation map, empty selection set); (strings) a boundary alphabet of 90 strings (empty, lone `$`/`%`, sigil + non-ASCII, NON-ASCII FIRST character in 2-, 3- and 4-byte UTF-8, combining mark / BOM / NUL first, whitespace, digit, quote, backslash first, plain names) placed in every argument position that takes a string - @filter op, @filter value elements (first, second, as a bare string, before `op`), @tag/@output names (also on fold counts), @transform op, arguments of @fold/@optional/@recurse, every root-field and edge parameter - over a small valid base query per schema (tag `nt:non-ascii-first` when the string's first character is not ASCII); in rendered text non-ASCII BMP characters with an odd code point are written as GraphQL \\uXXXX escapes, the others literally; (bytes) rendered valid text with 1-4 random character edits: `(text-nopanic hex)` explores the unmodelled text parser (both sides answer the constant `nopanic`), and whatever the text parser accepts is converted back to an abstract document and sent as a compile-doc request. Every abstract document goes to the model as an s-expression and to the implementation as a directly constructed ExecutableDocument: `(compile-doc schema view doc)` compares the outcome class of frontend::parse_doc + IndexedQuery conversion (ok / `err parse V` / `err frontend V1 V2 …` in order / panic) with the model's `compile`; `(parse-doc doc)` (a third of the documents) compares graphql_query::query::parse_document alone; `(view-valid schema view)` compares the theorems' schema hypothesis with Schema::parse + distinct parameter names. A case is non-trivial (`nt:`) when it gets past the parse layer (compile-doc) or when its parse-layer answer is an error/panic or an `ok` with edge directives (parse-doc). ORACLE (all streams): no panic anywhere - frontend::parse on the rendered text, parse_doc + conversion on the constructed AST, the text parser on edited bytes - for any document a text could produce; when a document renders to text, async_graphql_parser::parse_query of that text must give exactly the constructed AST (normalised Debug equality) and the same outcome class."
+        "Streams, over three schemas (the repo's `numbers`; `c10a`: Boolean/ID/Float properties, 29- and 30-level list properties, list/string/bool parameters with defaults and nullability, a three-level interface hierarchy with narrowed edge types, a custom scalar; `c10dup`: an edge that declares a parameter twice - rejected by Schema::parse with DuplicateFieldParameterDefinition since the repair of F-C10-5, its requests are answered `(schema-rejected DuplicateFieldParameterDefinition)` by both sides and kept as regression cases): (valid) type-directed queries (root fields with parameters, properties incl. __typename, every edge, aliases, `... on` coercions, @optional/@recurse/@fold/@fold @transform(count) with @output/@filter/@tag, filters with variables and with previously defined tags incl. fold-count tags; one document in six in a loose mode with names from small pools - output/tag clashes, variables shared between filters - fold-local tags kept visible and rejected directive mixes); (mut) one to three random mutations of such a query out of 34 kinds: drop/duplicate/transpose/insert a directive, wrong argument kinds, missing/extra/duplicated arguments, @transform chains, directives on the root field / operation / fragment spreads / inline fragments, 1/2/3 named operations, fragments defined/used/unused, variable definitions, mutation/subscription, aliases everywhere, numeric edge cases of `depth`, filter operand shapes, renamed fields incl. __typename, edge arguments of every value kind, coercion under a property, output-name clashes, structures no text can produce (empty operation map, empty selection set); (strings) a boundary alphabet of 90 strings (empty, lone `$`/`%`, sigil + non-ASCII, NON-ASCII FIRST character in 2-, 3- and 4-byte UTF-8, combining mark / BOM / NUL first, whitespace, digit, quote, backslash first, plain names) placed in every argument position that takes a string - @filter op, @filter value elements (first, second, as a bare string, before `op`), @tag/@output names (also on fold counts), @transform op, arguments of @fold/@optional/@recurse, every root-field and edge parameter - over a small valid base query per schema (tag `nt:non-ascii-first` when the string's first character is not ASCII); in rendered text non-ASCII BMP characters with an odd code point are written as GraphQL \\uXXXX escapes, the others literally; (bytes) rendered valid text with 1-4 random character edits: `(text-nopanic hex)` explores the unmodelled text parser (both sides answer the constant `nopanic`), and whatever the text parser accepts is converted back to an abstract document and sent as a compile-doc request. Every abstract document goes to the model as an s-expression and to the implementation as a directly constructed ExecutableDocument: `(compile-doc schema view doc)` compares the outcome class of frontend::parse_doc + IndexedQuery conversion (ok / `err parse V` / `err frontend V1 V2 …` in order / panic) with the model's `compile`; `(parse-doc doc)` (a third of the documents) compares graphql_query::query::parse_document alone; `(view-valid schema view)` compares the theorems' schema hypothesis with Schema::parse + distinct parameter names (which Schema::parse itself enforces since the repair of F-C10-5). A case is non-trivial (`nt:`) when it gets past the parse layer (compile-doc) or when its parse-layer answer is an error/panic or an `ok` with edge directives (parse-doc). ORACLE (all streams): no panic anywhere - frontend::parse on the rendered text, parse_doc + conversion on the constructed AST, the text parser on edited bytes - for any document a text could produce; when a document renders to text, async_graphql_parser::parse_query of that text must give exactly the constructed AST (normalised Debug equality) and the same outcome class."
     }
     fn generate(&self, tier: Tier, rng: &mut Rng) -> Vec<Case> {
         let (n_valid, n_mut, n_bytes) = if tier == Tier::Quick { (2000, 7000, 4000) } else { (20000, 70000, 40000) };
@@ -2112,13 +2144,18 @@ impl Prop for C10 {
                 Some(parse_layer_answer(&doc))
             }
             ("compile-doc", [id, _view, dx]) => {
-                let schema = schema(id.as_atom()?)?;
                 let doc = sexp_to_doc(dx)?;
+                if let Some(variant) = schema_rejection(id.as_atom()?) {
+                    // there is no Schema value to compile against (F-C10-5 repaired)
+                    return Some(format!("(schema-rejected {variant})"));
+                }
+                let schema = schema(id.as_atom()?)?;
                 Some(compile_ast(schema, &doc))
             }
             ("view-valid", [id, _view]) => {
-                // the hypothesis of the totality theorems: accepted by Schema::parse, and (what
-                // Schema::parse does not check, N-5) no edge declares a parameter twice
+                // the hypothesis of the totality theorems: accepted by Schema::parse, which includes (since
+                // the repair of N-5 / F-C10-5; still evaluated independently here) that no edge declares
+                // a parameter twice
                 let id = id.as_atom()?;
                 let accepted = Schema::parse(schema_sdl(id)?).is_ok();
                 let si = SchemaInfo::load(id);
@@ -2150,7 +2187,7 @@ impl Prop for C10 {
                 format!("compile:{}", e.answer)
             };
             t.push(class);
-            if !e.answer.starts_with("(err parse") {
+            if !e.answer.starts_with("(err parse") && !e.answer.starts_with("(schema-rejected") {
                 t.push("nt:reaches-frontend".into());
             }
             if let Some(doc) = sexp_to_doc(dx) {
